@@ -2,14 +2,29 @@
 // that holds unrelated valid content and reports, per request line
 //     ld <type> <target-seed> <hex bytes>
 // one answer line
-//     <ok|fail|exc:<what>> <same|changed> <description of the target after the call>
-// `same/changed` is the property's own oracle: a deep snapshot of the target taken before the
-// call (description + raw cached signature + is_valid()) compared with one taken after it.
+//     <ok|fail|exc:<what>> <same|changed> <description of the target after the call> [## <where>]
+// `same/changed` is the property's own oracle: a deep snapshot of the target taken before the call compared
+// with one taken after it.  The snapshot has two parts:
+//   * c12m::deep  EVERY data member of the target, recursively (member list generated from the clang AST:
+//                 harness/c12_members_gen.h, value rules in harness/c12_snap.h);
+//   * snap        the observable description + raw cached signature + is_valid() (c11_ser.h / c11_big.h).
+// `## <where>` names the first member that differs (outermost -> innermost) when `changed`.
+// The request `stats` answers the visit / populated counters of the deep snapshot and the histogram of the
+// target features.
 // Allocation requests above 64 MiB throw std::bad_alloc (a damaged element count must not take
 // the harness down); such exceptions are reported as exc:bad_alloc.
+//
+// The requests are read from a duplicate of stdin and fd 0 is re-opened on /dev/null: the targets of type
+// summary come from real evolution runs, and evolution::run polls the keyboard (std::cin).
 #include "c11_big.h"
 
 #include "c11_alloc.h"
+
+#include "c12_snap.h"
+#include "c12_targets.h"
+
+#include <fcntl.h>
+#include <unistd.h>
 
 using namespace c11;
 
@@ -17,8 +32,9 @@ namespace
 {
 
 template<class T, class Load, class Snap, class Enc>
-std::string run_load(T &target, const std::string &bytes, Load load, Snap snapf, Enc encf)
+std::string run_load(const std::string &tag, T &target, const std::string &bytes, Load load, Snap snapf, Enc encf)
 {
+  const auto deep_before(c12m::deep(tag, target));
   const std::string before(snapf(target));
   std::istringstream in(bytes);
   std::string verdict;
@@ -30,8 +46,13 @@ std::string run_load(T &target, const std::string &bytes, Load load, Snap snapf,
   catch (const std::length_error &) { verdict = "exc:length_error"; }
   catch (const vita::exception::data_format &) { verdict = "exc:data_format"; }
   catch (const std::exception &e) { verdict = std::string("exc:std:") + typeid(e).name(); }
+  // every member first (no precondition), then the observers (is_valid() of a torn target may trap)
+  const auto deep_after(c12m::deep(tag, target));
+  const std::string where(c12m::first_difference(deep_before, deep_after));
   const std::string after(snapf(target));
-  return verdict + (before == after ? " same " : " changed ") + encf(target);
+  const bool same(where == "-" && before == after);
+  return verdict + (same ? " same " : " changed ") + encf(target)
+         + (same || verdict == "ok" ? std::string() : " ## " + (where == "-" ? std::string("observers") : where));
 }
 
 }  // namespace
@@ -41,13 +62,34 @@ std::string run_load(T &target, const std::string &bytes, Load load, Snap snapf,
 int main()
 {
   vita::log::reporting_level = vita::log::lOFF;
+  // requests on a private descriptor, keyboard = /dev/null
+  const int req_fd(dup(0));
+  const int nul(open("/dev/null", O_RDONLY));
+  if (req_fd < 0 || nul < 0 || dup2(nul, 0) < 0) { std::cout << "bad-stdin\n"; return 2; }
+  FILE *req(fdopen(req_fd, "r"));
+  if (!req) { std::cout << "bad-stdin\n"; return 2; }
+
   (void)c11::M();      // the symbol sets are built first, in the same order as in c11_ser:
   (void)c11::L();      // same opcodes
-  std::string line;
-  while (std::getline(std::cin, line))
+  char *buf(nullptr);
+  std::size_t cap(0);
+  ssize_t got;
+  while ((got = getline(&buf, &cap, req)) >= 0)
   {
+    std::string line(buf, std::size_t(got));
+    while (!line.empty() && (line.back() == '\n' || line.back() == '\r')) line.pop_back();
     const auto t(verif::split(line));
-    if (t.size() < 4 || t[0] != "ld") { std::cout << "bad-op\n"; continue; }
+    if (t.size() == 1 && t[0] == "stats") { std::cout << c12m::stats_line() << "\n"; std::cout.flush(); continue; }
+    if (t.size() == 1 && t[0] == "symcats")
+    {
+      // opcode:category of every symbol of the harness's symbol set (for the opcode substitutions)
+      std::string o("symcats");
+      for (auto sy : c11::M().syms) o += ' ' + std::to_string(sy->opcode()) + ':' + std::to_string(sy->category());
+      std::cout << o << "\n";
+      std::cout.flush();
+      continue;
+    }
+    if (t.size() < 4 || t[0] != "ld") { std::cout << "bad-op\n"; std::cout.flush(); continue; }
     const std::string &type(t[1]);
     const std::uint64_t tseed(std::stoull(t[2]));
     const std::string bytes(verif::unhex(t[3]));
@@ -57,14 +99,14 @@ int main()
     if (type == "hash")
     {
       hash_t x(make_hash(r));
-      std::cout << run_load(x, bytes, [](hash_t &y, std::istream &in) { return y.load(in); },
+      std::cout << run_load(type, x, bytes, [](hash_t &y, std::istream &in) { return y.load(in); },
                             [](const hash_t &y) { return snap(y); }, [](const hash_t &y) { return enc(y); })
                 << "\n";
     }
     else if (type == "fit")
     {
       fitness_t x(make_fit(r, false));
-      std::cout << run_load(x, bytes, [](fitness_t &y, std::istream &in) { return y.load(in); },
+      std::cout << run_load(type, x, bytes, [](fitness_t &y, std::istream &in) { return y.load(in); },
                             [](const fitness_t &y) { return snap(y); },
                             [](const fitness_t &y) { return enc(y); })
                 << "\n";
@@ -73,7 +115,7 @@ int main()
     {
       i_ga x(make_iga(r));
       (void)x.signature();   // the cached signature is part of the target's state
-      std::cout << run_load(x, bytes, [](i_ga &y, std::istream &in) { return y.load(in); },
+      std::cout << run_load(type, x, bytes, [](i_ga &y, std::istream &in) { return y.load(in); },
                             [](const i_ga &y) { return snap(y); }, [](const i_ga &y) { return enc(y); })
                 << "\n";
     }
@@ -81,14 +123,14 @@ int main()
     {
       i_de x(make_ide(r));
       (void)x.signature();
-      std::cout << run_load(x, bytes, [](i_de &y, std::istream &in) { return y.load(in); },
+      std::cout << run_load(type, x, bytes, [](i_de &y, std::istream &in) { return y.load(in); },
                             [](const i_de &y) { return snap(y); }, [](const i_de &y) { return enc(y); })
                 << "\n";
     }
     else if (type == "mati")
     {
       matrix<int> x(make_mat<int>(r));
-      std::cout << run_load(x, bytes, [](matrix<int> &y, std::istream &in) { return y.load(in); },
+      std::cout << run_load(type, x, bytes, [](matrix<int> &y, std::istream &in) { return y.load(in); },
                             [](const matrix<int> &y) { return snap(y); },
                             [](const matrix<int> &y) { return enc(y); })
                 << "\n";
@@ -96,7 +138,7 @@ int main()
     else if (type == "matu")
     {
       matrix<unsigned> x(make_mat<unsigned>(r));
-      std::cout << run_load(x, bytes, [](matrix<unsigned> &y, std::istream &in) { return y.load(in); },
+      std::cout << run_load(type, x, bytes, [](matrix<unsigned> &y, std::istream &in) { return y.load(in); },
                             [](const matrix<unsigned> &y) { return snap(y); },
                             [](const matrix<unsigned> &y) { return enc(y); })
                 << "\n";
@@ -104,7 +146,7 @@ int main()
     else if (type == "dist")
     {
       distribution<double> x(make_dist(r, false));
-      std::cout << run_load(x, bytes, [](distribution<double> &y, std::istream &in) { return y.load(in); },
+      std::cout << run_load(type, x, bytes, [](distribution<double> &y, std::istream &in) { return y.load(in); },
                             [](const distribution<double> &y) { return snap(y); },
                             [](const distribution<double> &y) { return enc(y); })
                 << "\n";
@@ -113,9 +155,12 @@ int main()
       std::cout << c12big::load_lambda(unsigned(tseed), bytes) << "\n";
     else if (type == "cache")
       std::cout << c12big::load_cache(unsigned(tseed), bytes) << "\n";
-    else if (!c12big::dispatch(type, r, bytes))
+    else if (type == "cachet")
+      std::cout << c12big::load_cache_target(r, bytes) << "\n";
+    else if (!c12big::dispatch(type, tseed, r, bytes))
       std::cout << "bad-op\n";
     std::cout.flush();
   }
+  std::free(buf);
   return 0;
 }
